@@ -16,7 +16,11 @@ use std::sync::Arc;
 use trippy_core::{MultipathStrategy, PortDirection, ProbeStatus, Protocol};
 
 /// Install a script that forges responses which need knowledge of the tracer configuration.
-fn install_script(world: &Arc<World>, tcfg: &TraceCfg, density_pct: u64, round_ns: u64) {
+fn install_script(world: &Arc<World>, tcfg: &TraceCfg, density_pct: u64, round_ns: u64) -> Arc<std::sync::Mutex<std::collections::HashMap<usize, Vec<u16>>>> {
+    // the "never sent" sequences forged per wire packet: a forgery that arrives so late that the
+    // tracer has meanwhile issued that very sequence is no forgery any more (see run_scenario)
+    let never_sent: Arc<std::sync::Mutex<std::collections::HashMap<usize, Vec<u16>>>> = Arc::new(std::sync::Mutex::new(std::collections::HashMap::new()));
+    let never_sent2 = never_sent.clone();
     let tcfg = tcfg.clone();
     let (host4, host6, router, target) = {
         let w = world.inner.lock().unwrap();
@@ -53,6 +57,7 @@ fn install_script(world: &Arc<World>, tcfg: &TraceCfg, density_pct: u64, round_n
             // a sequence that is inside the round's 512 wide window but was never issued
             let k = r.range(270, 440) as u16;
             if let Some(s2) = seq.checked_add(k) {
+                never_sent2.lock().unwrap().entry(wp.id).or_default().push(s2);
                 let d = forge::set_sequence(&tcfg, &transit, s2);
                 let tl = r.chance(1, 2);
                 push(&mut out, r, Forgery::NeverSentInWindow, d, tl);
@@ -65,6 +70,7 @@ fn install_script(world: &Arc<World>, tcfg: &TraceCfg, density_pct: u64, round_n
         }
         if r.chance(density_pct, 100) {
             let s2 = if r.chance(1, 2) { seq.wrapping_sub(r.range(600, 5_000) as u16) } else { seq.wrapping_add(r.range(600, 5_000) as u16) };
+            never_sent2.lock().unwrap().entry(wp.id).or_default().push(s2);
             let d = forge::set_sequence(&tcfg, &transit, s2);
             let tl = r.chance(1, 2);
             push(&mut out, r, Forgery::NeverSentOutside, d, tl);
@@ -108,6 +114,7 @@ fn install_script(world: &Arc<World>, tcfg: &TraceCfg, density_pct: u64, round_n
         out
     };
     world.inner.lock().unwrap().inject_on_send.push(Box::new(script));
+    never_sent
 }
 
 pub struct Scenario {
@@ -222,12 +229,12 @@ pub fn run_scenario(seed: u64, i: usize, cells: &[Cell], tier: Tier) -> Outcome 
     let site = sc.cell.name();
     let res = guarded(|| {
         let world = World::new(sc.wcfg.clone());
-        install_script(&world, &sc.tcfg, sc.density, sc.round_ns);
+        let never_sent = install_script(&world, &sc.tcfg, sc.density, sc.round_ns);
         let tracer = sc.tcfg.builder().build().map_err(|e| format!("build: {e}"))?;
         let r = run_tracer(&world, 0, &tracer, &RunOpts { snapshots: false });
-        Ok::<_, String>((world, r))
+        Ok::<_, String>((world, r, never_sent))
     });
-    let (world, run) = match res {
+    let (world, run, never_sent) = match res {
         Err(p) if p.in_repo() => {
             o.violate("no_panic", format!("{site}|{}", p.site()), format!("panic at {}:{}: {}", p.file, p.line, p.message), replay);
             return o;
@@ -242,6 +249,33 @@ pub fn run_scenario(seed: u64, i: usize, cells: &[Cell], tier: Tier) -> Outcome 
         }
         Ok(Ok(x)) => x,
     };
+    // a forged "never sent" sequence that the tracer did issue in the round in which the forgery
+    // was read (rounds can be much shorter than the forgery's delay) is indistinguishable from a
+    // genuine response: such a scenario proves nothing and is not judged
+    {
+        let w = world.inner.lock().unwrap();
+        let a = analyse(&w, 0, &run);
+        let ns = never_sent.lock().unwrap();
+        let collided = a.rounds.iter().zip(&run.rounds).any(|(rt, round)| {
+            let issued: std::collections::HashSet<u16> = round
+                .probes
+                .iter()
+                .filter_map(|p| match p {
+                    ProbeStatus::Awaited(a) => Some(a.sequence.0),
+                    ProbeStatus::Complete(c) => Some(c.sequence.0),
+                    ProbeStatus::Failed(f) => Some(f.sequence.0),
+                    _ => None,
+                })
+                .collect();
+            rt.reads.iter().any(|rd| {
+                matches!(rd.class, PktClass::Forged(Forgery::NeverSentInWindow | Forgery::NeverSentOutside)) && rd.wire.and_then(|wid| ns.get(&wid)).is_some_and(|v| v.iter().any(|s2| issued.contains(s2)))
+            })
+        });
+        if collided {
+            o.count("scenarios_not_judged_a_forged_sequence_had_been_issued_when_it_arrived", 1);
+            return o;
+        }
+    }
     check_one(&world, 0, &run, &sc.tcfg, &mut o, &site, &replay);
     o.observe("cells", site.clone());
     if i < 2 {
